@@ -27,28 +27,31 @@ def run(rep):
         if smf is not None:
             rep.add_tlc("C17.ArrayStateMachine", smf.result())
     rep.add_tlc("C17.Enum+Laws", res)
-    seen, calls, scripts = set(), [], []
+    seen, calls, scripts, keys = set(), [], [], []
     import hashlib
     for c in res.records:
         k = hashlib.md5(key(c).encode()).digest()
         if k in seen:
             continue
         seen.add(k)
-        (calls if c["ty"] == "call" else scripts).append(c)
+        (calls if c["ty"] == "call" else keys if c["ty"] == "key" else scripts).append(c)
     res.records, res.stdout, seen = [], "", None          # the enumeration output is large: free it
     nrw = sum(1 for c in scripts if c.get("fam") == "rw")
-    if parts == "all" and (len(calls) < 5000 or len(scripts) - nrw < 500) or nrw < 500:
-        raise Machinery("enumeration produced only %d calls, %d scripts" % (len(calls), len(scripts)))
+    if (parts == "all" and (len(calls) < 5000 or len(scripts) - nrw < 500)) or (parts != "key" and nrw < 500) \
+            or (parts in ("all", "key") and len(keys) < 1000):
+        raise Machinery("enumeration produced only %d calls, %d scripts, %d key scripts" % (len(calls), len(scripts), len(keys)))
     rng = random.Random(rep.seed)
     allc = []
-    for c in calls + scripts:
+    for c in calls + scripts + keys:
         c["id"] = len(allc)
         c["intrep"] = True                       # integer-valued numbers as the engine's literals hold them
         allc.append(c)
     # the same cases with integer-valued numbers held as Python floats (representation mix): all plain calls, a sample of the rest
-    for c in calls + scripts:
+    for c in calls + scripts + keys:
         if c.get("fam") == "rw":
             p = 0.25 if quick else 0.1               # a family about histories and aliasing, not about number representations
+        elif c["ty"] == "key":
+            p = 1.0                                  # a number key held as a Python float is a key kind of its own
         else:
             p = 0.1 if c["ty"] == "call" and c["cb"]["kind"] != "na" else (1.0 if quick else 0.3)
         if rng.random() > p:
@@ -71,6 +74,11 @@ def run(rep):
                                 "before / after the first read) x read path before (none, join, toString, copied by set) x writing view x "
                                 "write method (index, set from array, set from typed array) x read path after (TLC-enumerated, RWLaw)",
                        "cases": nrw, "complete": True})
+    rep.spaces.append({"space": "element reads and writes by property key: key kind (boolean, undefined, null, index / non-index string, index number, "
+                                "-0, negative and non-integer number) x read / write / write then read through any key / two writes x receiver "
+                                "length 0..3 (6 thorough); elements, own named properties and reads by name observed after every event "
+                                "(TLC-enumerated, KeyGridLaw)",
+                       "cases": len(keys), "complete": True})
     rep.spaces.append({"space": "seeded random histories (arrays: <= 20 calls on three shared arrays; typed arrays: <= 20 events on two buffers, a quarter of them with join / toString between the writes)",
                        "cases": len(hist) + len(tah), "complete": False})
     # 2./3. replay into the engine and judge in TLC, batch by batch (bounded memory)
@@ -127,6 +135,9 @@ def process(rep, batch, shards):
         if c["ty"] == "call":
             crecs.append({"id": c["id"], "ty": "call", "store": c["store"], "m": c["m"], "r": c["r"], "a": c["a"], "cb": c["cb"],
                           "obs": r["obs"]})
+        elif c["ty"] == "key":
+            crecs.append({"id": c["id"], "ty": "key", "store": c["store"], "r": c["r"], "probes": c["probes"],
+                          "evs": [dict(ev, obs=ob) for ev, ob in zip(c["evs"], r["obs"])]})
         else:
             evs = []
             for ev, ob in zip(c["evs"], r["obs"]):
@@ -141,7 +152,7 @@ def process(rep, batch, shards):
     tverd, st2, tr2, wall2 = tlc.judge(rep.pid, "C17", trecs, TRACE_CFG, tag="judge_traces", shards=shards)
     rep.add_judge(len(trecs), st2, tr2)
     rep.notes["judge_wall_s"] = [round(rep.notes["judge_wall_s"][0] + wall, 1), round(rep.notes["judge_wall_s"][1] + wall2, 1)]
-    rep.evaluations += len(crecs) + sum(len(t["evs"]) for t in trecs)
+    rep.evaluations += sum(len(t["evs"]) if t["ty"] == "key" else 1 for t in crecs) + sum(len(t["evs"]) for t in trecs)
     got = {v["id"]: v for v in verdicts + tverd}
     if len(got) != len(batch):
         raise Machinery("judge returned %d verdicts for %d records" % (len(got), len(batch)))
@@ -207,6 +218,10 @@ def show_case(c):
     tag = "" if c.get("intrep", True) else " [float repr]"
     if c["ty"] == "call":
         return show_call(c["store"], c) + tag
+    if c["ty"] == "key":
+        recv = "[" + ", ".join(show_val(e) for e in c["store"][c["r"] - 1]) + "]"
+        return "a = " + recv + "; " + "; ".join(("a[%s]" % show_val(e["k"])) + (" = " + show_val(e["v"]) if e["op"] == "set" else "")
+                                                 for e in c["evs"]) + tag
     if c["ty"] == "hist":
         return "history " + "; ".join("#%d.%s" % (e["r"], e["m"]) for e in c["evs"]) + " on " + json.dumps([[show_val(x) for x in a] for a in c["store"]])
     out = []
